@@ -231,6 +231,10 @@ DumpOK(op) ==
         /\ d.q = [j \in 1..Len(q) |-> q[j].s]
         /\ (q # <<>> => d.ar = q[1].ar)
   /\ \A r \in Slot : op.nrules[r] = Len(rules[r])
+  \* (the per-connection count the names limit is checked against: every queue entry and the unique name)
+  \* (-1: the harness cannot look the connection up because the client was never told its name)
+  /\ "nowned" \in DOMAIN op => \A r \in Slot : \/ op.nowned[r] = -1
+                                                 \/ op.nowned[r] = IF cst[r] = "active" THEN HeldCount(queue, r) ELSE 0
 Dump(op) == DumpOK(op) /\ out' = <<>> /\ UNCHANGED <<cfg, cst, dying, uid, uname, everNames, queue, rules, pend, mon, fdx, act>>
 
 Apply0(s, op) ==
